@@ -64,7 +64,7 @@ def strategy_(draw, tier):
         elif k == "gfc":
             steps.append({"k": "gfc", "pairs": [list(p) for p in draw(st.lists(st.tuples(ix, ix), min_size=0, max_size=3, unique=True))]})
         elif k == "chi":
-            steps.append({"k": "chi", "src": draw(st.sampled_from(["sa", "ct"])), "ijkl": [draw(ix), draw(ix), draw(ix), draw(ix)],
+            steps.append({"k": "chi", "src": draw(st.sampled_from(["sa", "ct"])), "ijkl": list(draw(gen.chi_quad_st(N))),
                           "mode": draw(st.sampled_from(["table", "table", "default", "empty", "notable"])), "clear": draw(st.integers(0, 1)),
                           "triples": draw(st.lists(gen.triple_st(-3, 3), min_size=1, max_size=3))})
         elif k == "susc":
